@@ -35,7 +35,7 @@ structure KindOK (kind : Kind) (cmp : K → K → Int) (Good : Tree K V → Prop
     ∃ t', deleteMax kind t = .ok (t', Spec.last t.toList) ∧ Good t' ∧ t'.toList = t.toList.dropLast
 
 /-- abstraction function on states -/
-def abs (s : State K V) : Spec.State K V := (s.1.toList, s.2.toList)
+def abs (s : State K V) : Spec.State K V := (s.1.toList, s.2.1.toList, s.2.2.toList)
 
 section
 variable {kind : Kind} {cmp : K → K → Int} {Good : Tree K V → Prop}
@@ -104,53 +104,54 @@ theorem partitionMatch_ok (hk : KindOK kind cmp Good) (h : LawfulCmp cmp) (p : K
 /-- one call: the Model does not fail, stays good, follows the abstract map, and its result is
 admitted by the abstract map -/
 theorem step_ok (hk : KindOK kind cmp Good) (h : LawfulCmp cmp) (eqVal : V → V → Bool) (s : State K V)
-    (hs : Good s.1 ∧ Good s.2) (op : Op K V) :
-    ∃ s' o, step kind cmp eqVal s op = .ok (s', o) ∧ (Good s'.1 ∧ Good s'.2) ∧
+    (hs : Good s.1 ∧ Good s.2.1 ∧ Good s.2.2) (op : Op K V) :
+    ∃ s' o, step kind cmp eqVal s op = .ok (s', o) ∧ (Good s'.1 ∧ Good s'.2.1 ∧ Good s'.2.2) ∧
       abs s' = Spec.next cmp (abs s) op ∧ Spec.admits cmp eqVal (abs s) op o := by
-  obtain ⟨s1, s2⟩ := s
-  obtain ⟨g1, g2⟩ := hs
+  obtain ⟨s1, s2, s3⟩ := s
+  obtain ⟨g1, g2, g3⟩ := hs
   have i1 := hk.inv s1 g1
   have i2 := hk.inv s2 g2
   cases op with
   | put k v =>
     obtain ⟨t', e, g, l⟩ := hk.put s1 k v g1
-    exact ⟨(t', s2), .unit, by simp [step, e], ⟨g, g2⟩, by simp [abs, Spec.next, l], rfl⟩
+    exact ⟨(t', s2, s3), .unit, by simp [step, e], ⟨g, g2, g3⟩, by simp [abs, Spec.next, l], rfl⟩
   | delete k =>
     obtain ⟨t', e, g, l⟩ := hk.delete s1 k g1
-    exact ⟨(t', s2), .optV (Spec.get cmp k s1.toList), by simp [step, e], ⟨g, g2⟩, by simp [abs, Spec.next, l], rfl⟩
+    exact ⟨(t', s2, s3), .optV (Spec.get cmp k s1.toList), by simp [step, e], ⟨g, g2, g3⟩, by simp [abs, Spec.next, l], rfl⟩
   | deleteMin =>
     obtain ⟨t', e, g, l⟩ := hk.deleteMin s1 g1
-    exact ⟨(t', s2), .optKV (Spec.first s1.toList), by simp [step, e], ⟨g, g2⟩, by simp [abs, Spec.next, l], rfl⟩
+    exact ⟨(t', s2, s3), .optKV (Spec.first s1.toList), by simp [step, e], ⟨g, g2, g3⟩, by simp [abs, Spec.next, l], rfl⟩
   | deleteMax =>
     obtain ⟨t', e, g, l⟩ := hk.deleteMax s1 g1
-    exact ⟨(t', s2), .optKV (Spec.last s1.toList), by simp [step, e], ⟨g, g2⟩, by simp [abs, Spec.next, l], rfl⟩
-  | deleteAll => exact ⟨(.nil, s2), .unit, rfl, ⟨hk.good_nil, g2⟩, rfl, rfl⟩
-  | swap => exact ⟨(s2, s1), .unit, rfl, ⟨g2, g1⟩, rfl, rfl⟩
+    exact ⟨(t', s2, s3), .optKV (Spec.last s1.toList), by simp [step, e], ⟨g, g2, g3⟩, by simp [abs, Spec.next, l], rfl⟩
+  | deleteAll => exact ⟨(.nil, s2, s3), .unit, rfl, ⟨hk.good_nil, g2, g3⟩, rfl, rfl⟩
+  | swap => exact ⟨(s2, s1, s3), .unit, rfl, ⟨g2, g1, g3⟩, rfl, rfl⟩
+  | swapC => exact ⟨(s3, s2, s1), .unit, rfl, ⟨g3, g2, g1⟩, rfl, rfl⟩
   | size =>
-    exact ⟨(s1, s2), _, rfl, ⟨g1, g2⟩, rfl, by simp [Spec.admits, abs, sz_eq_length i1.2]⟩
+    exact ⟨(s1, s2, s3), _, rfl, ⟨g1, g2, g3⟩, rfl, by simp [Spec.admits, abs, sz_eq_length i1.2]⟩
   | isEmpty =>
-    exact ⟨(s1, s2), _, rfl, ⟨g1, g2⟩, rfl, by simp [Spec.admits, abs, isNil_iff_toList]⟩
-  | height => exact ⟨(s1, s2), _, rfl, ⟨g1, g2⟩, rfl, ⟨_, rfl⟩⟩
-  | get k => exact ⟨(s1, s2), _, rfl, ⟨g1, g2⟩, rfl, by simp [Spec.admits, abs, get_eq h k i1.1]⟩
-  | min => exact ⟨(s1, s2), _, rfl, ⟨g1, g2⟩, rfl, by simp [Spec.admits, abs, minKV_eq]⟩
-  | max => exact ⟨(s1, s2), _, rfl, ⟨g1, g2⟩, rfl, by simp [Spec.admits, abs, maxKV_eq]⟩
-  | floor k => exact ⟨(s1, s2), _, rfl, ⟨g1, g2⟩, rfl, by simp [Spec.admits, abs, floor_eq h k i1.1]⟩
-  | ceiling k => exact ⟨(s1, s2), _, rfl, ⟨g1, g2⟩, rfl, by simp [Spec.admits, abs, ceiling_eq h k i1.1]⟩
+    exact ⟨(s1, s2, s3), _, rfl, ⟨g1, g2, g3⟩, rfl, by simp [Spec.admits, abs, isNil_iff_toList]⟩
+  | height => exact ⟨(s1, s2, s3), _, rfl, ⟨g1, g2, g3⟩, rfl, ⟨_, rfl⟩⟩
+  | get k => exact ⟨(s1, s2, s3), _, rfl, ⟨g1, g2, g3⟩, rfl, by simp [Spec.admits, abs, get_eq h k i1.1]⟩
+  | min => exact ⟨(s1, s2, s3), _, rfl, ⟨g1, g2, g3⟩, rfl, by simp [Spec.admits, abs, minKV_eq]⟩
+  | max => exact ⟨(s1, s2, s3), _, rfl, ⟨g1, g2, g3⟩, rfl, by simp [Spec.admits, abs, maxKV_eq]⟩
+  | floor k => exact ⟨(s1, s2, s3), _, rfl, ⟨g1, g2, g3⟩, rfl, by simp [Spec.admits, abs, floor_eq h k i1.1]⟩
+  | ceiling k => exact ⟨(s1, s2, s3), _, rfl, ⟨g1, g2, g3⟩, rfl, by simp [Spec.admits, abs, ceiling_eq h k i1.1]⟩
   | select i =>
-    exact ⟨(s1, s2), .optKV (Spec.select s1.toList i), by simp [step, select_eq i1.2], ⟨g1, g2⟩, rfl, rfl⟩
-  | rank k => exact ⟨(s1, s2), _, rfl, ⟨g1, g2⟩, rfl, by simp [Spec.admits, abs, rank_eq h k i1]⟩
+    exact ⟨(s1, s2, s3), .optKV (Spec.select s1.toList i), by simp [step, select_eq i1.2], ⟨g1, g2, g3⟩, rfl, rfl⟩
+  | rank k => exact ⟨(s1, s2, s3), _, rfl, ⟨g1, g2, g3⟩, rfl, by simp [Spec.admits, abs, rank_eq h k i1]⟩
   | range lo hi =>
-    exact ⟨(s1, s2), _, rfl, ⟨g1, g2⟩, rfl, by simp [Spec.admits, abs, range_eq h lo hi i1.1]⟩
+    exact ⟨(s1, s2, s3), _, rfl, ⟨g1, g2, g3⟩, rfl, by simp [Spec.admits, abs, range_eq h lo hi i1.1]⟩
   | rangeSize lo hi =>
-    refine ⟨(s1, s2), _, rfl, ⟨g1, g2⟩, rfl, ?_⟩
+    refine ⟨(s1, s2, s3), _, rfl, ⟨g1, g2, g3⟩, rfl, ?_⟩
     simp only [Spec.admits, abs, rangeSize, get_eq h _ i1.1, rank_eq h _ i1]
     rw [← rangeSize_spec h lo hi i1.1]
-  | all => exact ⟨(s1, s2), _, rfl, ⟨g1, g2⟩, rfl, by simp [Spec.admits, abs, all_eq]⟩
+  | all => exact ⟨(s1, s2, s3), _, rfl, ⟨g1, g2, g3⟩, rfl, by simp [Spec.admits, abs, all_eq]⟩
   | allUntil limit =>
-    exact ⟨(s1, s2), _, rfl, ⟨g1, g2⟩, rfl, by simp [Spec.admits, abs, allUntil_eq]⟩
-  | equalOther => exact ⟨(s1, s2), _, rfl, ⟨g1, g2⟩, rfl, rfl⟩
+    exact ⟨(s1, s2, s3), _, rfl, ⟨g1, g2, g3⟩, rfl, by simp [Spec.admits, abs, allUntil_eq]⟩
+  | equalOther => exact ⟨(s1, s2, s3), _, rfl, ⟨g1, g2, g3⟩, rfl, rfl⟩
   | traverse o limit =>
-    refine ⟨(s1, s2), _, rfl, ⟨g1, g2⟩, rfl, ?_⟩
+    refine ⟨(s1, s2, s3), _, rfl, ⟨g1, g2, g3⟩, rfl, ?_⟩
     cases o
     case other => simp [Spec.admits, abs, traverseCollect_other]
     case lvr => simp [Spec.admits, abs, traverseCollect_eq .lvr (by decide), listing_lvr]
@@ -166,28 +167,28 @@ theorem step_ok (hk : KindOK kind cmp Good) (h : LawfulCmp cmp) (eqVal : V → V
     case rlv =>
       exact ⟨_, listing_perm .rlv (by decide) s1, by rw [traverseCollect_eq .rlv (by decide)]⟩
   | equal =>
-    exact ⟨(s1, s2), _, rfl, ⟨g1, g2⟩, rfl, by simp [Spec.admits, abs, equal_eq cmp h eqVal i1.1 i2.1]⟩
-  | anyMatch p => exact ⟨(s1, s2), _, rfl, ⟨g1, g2⟩, rfl, by simp [Spec.admits, abs, anyMatch_eq]⟩
-  | allMatch p => exact ⟨(s1, s2), _, rfl, ⟨g1, g2⟩, rfl, by simp [Spec.admits, abs, allMatch_eq]⟩
+    exact ⟨(s1, s2, s3), _, rfl, ⟨g1, g2, g3⟩, rfl, by simp [Spec.admits, abs, equal_eq cmp h eqVal i1.1 i2.1]⟩
+  | anyMatch p => exact ⟨(s1, s2, s3), _, rfl, ⟨g1, g2, g3⟩, rfl, by simp [Spec.admits, abs, anyMatch_eq]⟩
+  | allMatch p => exact ⟨(s1, s2, s3), _, rfl, ⟨g1, g2, g3⟩, rfl, by simp [Spec.admits, abs, allMatch_eq]⟩
   | firstMatch p =>
-    refine ⟨(s1, s2), _, rfl, ⟨g1, g2⟩, rfl, ?_⟩
+    refine ⟨(s1, s2, s3), _, rfl, ⟨g1, g2, g3⟩, rfl, ?_⟩
     simp only [Spec.admits, abs]
     rcases firstMatch_admits p s1 with ⟨e, hall⟩ | ⟨x, hx, hp, e⟩
     · left; exact ⟨by rw [e], hall⟩
     · right; exact ⟨x, hx, hp, by rw [e]⟩
   | selectMatch p =>
     obtain ⟨m, e, g, l⟩ := selectMatch_ok hk h p s1 g1
-    exact ⟨(s1, m), .list (all m), by simp [step, e], ⟨g1, g⟩, by simp [abs, Spec.next, l],
+    exact ⟨(s1, m, s3), .list (all m), by simp [step, e], ⟨g1, g, g3⟩, by simp [abs, Spec.next, l],
       by simp [Spec.admits, abs, all_eq, l]⟩
   | partitionMatch p =>
     obtain ⟨m, u, e, gm, gu, lm, lu⟩ := partitionMatch_ok hk h p s1 g1
-    exact ⟨(s1, m), .list2 (all m) (all u), by simp [step, e], ⟨g1, gm⟩, by simp [abs, Spec.next, lm],
+    exact ⟨(s1, m, u), .list2 (all m) (all u), by simp [step, e], ⟨g1, gm, gu⟩, by simp [abs, Spec.next, lm, lu],
       by simp [Spec.admits, abs, all_eq, lm, lu]⟩
 
 /-- whole histories -/
 theorem runFrom_ok (hk : KindOK kind cmp Good) (h : LawfulCmp cmp) (eqVal : V → V → Bool) :
-    ∀ (ops : List (Op K V)) (s : State K V), (Good s.1 ∧ Good s.2) →
-      ∃ s' outs, runFrom kind cmp eqVal s ops = .ok (s', outs) ∧ (Good s'.1 ∧ Good s'.2) ∧
+    ∀ (ops : List (Op K V)) (s : State K V), (Good s.1 ∧ Good s.2.1 ∧ Good s.2.2) →
+      ∃ s' outs, runFrom kind cmp eqVal s ops = .ok (s', outs) ∧ (Good s'.1 ∧ Good s'.2.1 ∧ Good s'.2.2) ∧
         Spec.accepts cmp eqVal (abs s) ops outs
   | [], s, hs => ⟨s, [], rfl, hs, trivial⟩
   | op :: ops, s, hs => by
